@@ -133,6 +133,11 @@ class VCtx:
         except Exception as e:
             return Outcome(exc=e)
 
+    def use_symbolic_dicts(self):
+        """ dict/set displays in interpreted code become fork-on-equality containers (symbolic keys) """
+        if self.symbolic:
+            self.interp.always_sdict = True
+
     def stub(self, qualname, fn):
         """ modular call: replace a repository callee by its contract (symbolic mode only) """
         if self.symbolic:
